@@ -1356,7 +1356,11 @@ impl Storage {
 
     /// Sets the storage to the given length.
     pub fn set_len(&mut self, len: u64) -> Result<(), ArchiveError> {
+        #[cfg(routinator_verif)]
+        crate::verif::kill_point("archive.set_len");
         self.file.lock().set_len(len)?;
+        #[cfg(routinator_verif)]
+        crate::verif::kill_point("archive.set_len.done");
         self.mmap()?;
         Ok(())
     }
@@ -1620,6 +1624,8 @@ impl<'a> StorageWrite<'a> {
     pub fn write(
         &mut self, data: &[u8]
     ) -> Result<(), ArchiveError> {
+        #[cfg(routinator_verif)]
+        crate::verif::kill_point("archive.write");
         match self.0 {
             #[cfg(unix)]
             WriteInner::Mmap { ref mut mmap, ref mut pos } => {
